@@ -31,7 +31,7 @@ ASSUMPTIONS = [
     "the slot-default alias ({% fill default=... %}) is only printed, never iterated or passed on as a kwarg",
     "fill bodies always contain at least one unconditional fill (a body whose fills all vanish is the implicit default fill)",
 ]
-BOUNDS = {"quick": {"programs": 3200}, "thorough": {"programs": 60000}}
+BOUNDS = {"quick": {"programs": 6400}, "thorough": {"programs": 60000}}
 
 CFG = {"errors": True}
 
